@@ -38,12 +38,14 @@ theorem attemptLoop_noVeto (mv : List Nat) (c : Bool) (old : List V3) (n : Nat) 
     simp only [attemptLoop, hop, hck, if_true]
     exact ⟨by first | rfl | trivial, h2⟩
 
-/-- without vetoes a displacement move with a pre-selected target always succeeds -/
+/-- without vetoes a displacement move with a pre-selected ELIGIBLE target always succeeds -/
 theorem dispCall_noVeto (r : Nat) (s : State) (l : Int) (hl : (s.obj r).toDisplace = some l)
+    (hel : l ∈ uniqueLabels (s.obj r).labels)
     (hm : 0 < (s.obj r).maxAttempts) (h : NoVeto s.inp) :
     (dispCall r s).1 = true ∧ NoVeto (dispCall r s).2.inp := by
   rw [dispCall_eq]
-  simp only [hl, dispCore, Option.getD_some, attemptDisplacement]
+  have hc : (uniqueLabels (s.obj r).labels).contains l = true := by simpa using hel
+  simp only [hl, hc, if_true, dispCore, Option.getD_some, attemptDisplacement]
   have := attemptLoop_noVeto (whereEq (s.obj r).labels l) (s.obj r).applyConstraints (positions s.atoms.rows)
     (s.obj r).maxAttempts s.atoms s.inp hm h
   rcases hres : attemptLoop (whereEq (s.obj r).labels l) (s.obj r).applyConstraints (positions s.atoms.rows)
@@ -127,7 +129,14 @@ theorem compDispLoop_count_noVeto (L : List Int) (rs : List Nat) (acc : List (Op
       have hobj1 : s1.obj r = { s.obj r with toDisplace := some l } := by
         rw [← hs1]; exact obj_setObj _ _ _ (by simpa using hr)
       have hinp1 : s1.inp = i := by rw [← hs1]; rfl
-      have hdc := dispCall_noVeto r s1 l (by rw [hobj1]) (by rw [hobj1]; exact hm r (by simp)) (by rw [hinp1]; exact hnvi)
+      have hel : l ∈ uniqueLabels (s.obj r).labels := by
+        have hne : setdiff (uniqueLabels (s.obj r).labels) (acc.filterMap id) ≠ [] := by
+          intro h0; rw [h0] at hcand; simp at hcand
+        have hmem := choice_mem _ 0 s.inp hne
+        rw [hch] at hmem
+        exact (List.mem_filter.1 hmem).1
+      have hdc := dispCall_noVeto r s1 l (by rw [hobj1]) (by rw [hobj1]; exact hel)
+        (by rw [hobj1]; exact hm r (by simp)) (by rw [hinp1]; exact hnvi)
       have hsp := dispCall_spec r s1 hr1
       have k2 := dispCall_keeps r s1 hr1
       rcases hcall : dispCall r s1 with ⟨ok, s2⟩
